@@ -65,6 +65,18 @@ CHECKS = {
         text="Loop programs over a complete box of (start, stop, step) triples plus random bodies (iterator in coordinates/arithmetic/literals, local names, memories, calls, nesting <= 3, list iterators, bounds through int variables) are compiled next to their unrolled twin; both blueprints are executed and must agree on outputs, entity conditions and the user-entity multiset; each expansion is checked against the documented sequence by a harness-attached monitor.",
         design_ref="DESIGN.md 3 (C16)",
     ),
+    "C15": dict(
+        category="exploration",
+        technique="runtime monitoring: differential execution of the program with calls and its manually inlined twin, reference oracle, and a monitor on the inliner's state save/restore and memory ids",
+        text="Programs with functions (all parameter kinds, coercions, shadowing locals, local memories and places, nested calls, calls in loops, entity-returning and void functions) are compiled next to their inlined twin; both blueprints are executed and must agree on outputs, entity conditions and the user-entity multiset, the call build also matching the reference semantics; a harness-attached monitor checks that the caller's parameter/signal/entity maps are restored after every call and that each executed Memory declaration gets a fresh id.",
+        design_ref="DESIGN.md 3 (C15)",
+    ),
+    "C17": dict(
+        category="exploration",
+        technique="runtime monitoring: pasted-twin differential execution over generated import graphs and working directories, a monitor on preprocess_imports/resolve_import_path, and a contract oracle for every lib/math.facto function on the executed blueprint",
+        text="Generated import graphs (chains, diamonds, cycles, self-import, cycle through the main file, sub-directories) are compiled from three working directories (one with decoy files) next to the pasted twin and executed; a monitor records resolutions and how often each file is inlined; every math-library function is compiled and executed for thousands of boundary-biased argument tuples against its documented value.",
+        design_ref="DESIGN.md 3 (C17)",
+    ),
 }
 
 PENDING = {}
